@@ -1,8 +1,118 @@
-#[allow(unused)]
+//! Engine E1 — Hydro programs through the production "embedded" code generator, driven tick by
+//! tick (C28, C29, C32, C33). See ../../GUIDE.md for the conventions.
+#![allow(non_snake_case)]
+
+#[allow(unused, non_snake_case, clippy::all)]
 mod programs {
     include!(concat!(env!("OUT_DIR"), "/programs.rs"));
 }
+mod c28;
+mod c29;
+mod c32;
+mod c33;
+mod driver;
+mod hand_table;
+mod model;
+mod refsem;
+mod gen_table {
+    use crate::driver::E;
+    use crate::exec_prog;
+    use crate::model::{OutKind, Prog};
+    use crate::refsem::*;
+    include!("gen_table.rs");
+}
+
+use model::Prog;
+use vf_explore::{Report, cli, quiet_panics};
 
 fn main() {
-    println!("hello");
+    let cli = cli();
+    quiet_panics();
+    if let Some(path) = &cli.replay {
+        std::process::exit(replay(&cli.property, path));
+    }
+    let mut rep = Report::new(&cli.property, &cli.tier, "vf_hydro_emb1");
+    match cli.property.as_str() {
+        "C28" => {
+            let mut progs: Vec<Prog> = gen_table::gen_table();
+            progs.extend(hand_table::corpus());
+            progs.extend(hand_table::keyed_plain());
+            c28::run_c28(&mut rep, &progs);
+        }
+        "C29" => {
+            let mut ordered: Vec<Prog> = gen_table::gen_table().into_iter().filter(|p| p.out == model::OutKind::Seq).collect();
+            ordered.extend(hand_table::corpus().into_iter().filter(|p| p.out == model::OutKind::Seq && !p.uses_b));
+            ordered.extend(hand_table::keyed_plain());
+            c29::run_c29(&mut rep, &ordered, &hand_table::keyed());
+        }
+        "C32" => c32::run_c32(&mut rep, &hand_table::weak()),
+        "C33" => c33::run_c33(&mut rep, &hand_table::monotone()),
+        other => {
+            eprintln!("vf_hydro_emb1 does not serve property {other}");
+            std::process::exit(2);
+        }
+    }
+    rep.finish();
+}
+
+/// Re-execute the case stored in a replay file through plain function calls.
+fn replay(property: &str, path: &str) -> i32 {
+    let txt = std::fs::read_to_string(path).expect("cannot read replay file");
+    let v: vf_explore::Value = vf_explore::serde_json::from_str(&txt).expect("replay file is not JSON");
+    let case = &v["case"];
+    let name = case["program"].as_str().expect("case.program");
+    let kind = case["kind"].as_str().unwrap_or("schedule");
+    let scheds: Vec<driver::Sched> = case["schedules"].as_array().expect("case.schedules").iter().map(driver::Sched::from_json).collect();
+    println!("replay property={property} program={name} kind={kind}");
+    let mut all: Vec<Prog> = gen_table::gen_table();
+    all.extend(hand_table::corpus());
+    all.extend(hand_table::keyed_plain());
+    let keyed = hand_table::keyed();
+    let weak = hand_table::weak();
+    let mono = hand_table::monotone();
+    let p: &Prog = all
+        .iter()
+        .chain(keyed.iter().map(|k| &k.prog))
+        .chain(weak.iter().map(|k| &k.prog))
+        .chain(mono.iter().map(|k| &k.prog))
+        .find(|p| p.name == name)
+        .expect("unknown program");
+    let mut finals = vec![];
+    for sc in &scheds {
+        let (fin, obs) = model::run(p, sc);
+        println!("  schedule {}", sc.to_json());
+        if let Some(o) = &obs {
+            println!("    emitted {:?} tick marks {:?} (before settling: {})", o.items, o.marks, o.pre_settle);
+        }
+        println!("    final {}", fin.to_json());
+        finals.push((fin, obs));
+    }
+    let violated = match kind {
+        "schedule" | "weak" => finals.windows(2).any(|w| w[0].0 != w[1].0),
+        "reference" => {
+            let sc = &scheds[0];
+            let exp = model::ref_final(p.out, (p.reference.expect("no reference"))(&sc.input_a(), &sc.input_b(), sc.s));
+            println!("  reference {}", exp.to_json());
+            finals[0].0 != exp
+        }
+        "keyed" => {
+            let kp = keyed.iter().find(|k| k.prog.name == name).expect("not a keyed program");
+            !c29::replay_keyed(kp, &scheds[0])
+        }
+        "monotone" => {
+            let mp = mono.iter().find(|k| k.prog.name == name).expect("not a C33 program");
+            match &finals[0].1 {
+                Some(o) => c33::judge(mp.oblig, o).is_some(),
+                None => true,
+            }
+        }
+        other => panic!("unknown replay kind {other}"),
+    };
+    if violated {
+        println!("replay: STILL VIOLATES");
+        1
+    } else {
+        println!("replay: no violation");
+        0
+    }
 }
